@@ -131,9 +131,19 @@ RESERVED = ["name", "type", "compose", "variable", "dim", "combine", "getter"]
 # encoding of Python values
 
 
+# opaque scalars: Python values the code observes only through truthiness / hashability / "not a str, list, dict";
+# the model holds them as int codes beyond +-10^6 (codes <= -10^6 are the falsy ones), see Model/C14.lean `truthy`
+OPAQUE = {"None": -1000001, "False": -1000002, "0.0": -1000003, "True": 1000001, "1.5": 1000002, "-2.5": 1000003,
+          "nan": 1000004, "inf": 1000005}
+_OPAQUE_PY = {"None": None, "False": False, "0.0": 0.0, "True": True, "1.5": 1.5, "-2.5": -2.5, "nan": float("nan"),
+              "inf": float("inf")}
+_OPAQUE_REV = {v: k for k, v in OPAQUE.items()}
+
+
 def enc(o):
-    if isinstance(o, bool):
-        return {"obj": "bool"}
+    if o is None or isinstance(o, (bool, float)):
+        r = repr(o)
+        return {"o": r} if r in OPAQUE else {"obj": type(o).__name__ + ":" + r}
     if isinstance(o, int):
         return o
     if isinstance(o, str):
@@ -150,6 +160,8 @@ def enc(o):
 def dec(p):
     if isinstance(p, (int, str)):
         return p
+    if "o" in p:
+        return _OPAQUE_PY[p["o"]]
     if "l" in p:
         return [dec(x) for x in p["l"]]
     if "t" in p:
@@ -160,15 +172,63 @@ def dec(p):
 
 
 def enc_data(o):
+    """data: ints, tuples, and dictionaries inside tuples (data that looks like a (data, context) pair)"""
     if isinstance(o, tuple):
         return [enc_data(x) for x in o]
     if isinstance(o, int) and not isinstance(o, bool):
         return o
+    if isinstance(o, dict):
+        return {"ctx": enc(o)}
     return {"obj": type(o).__name__}
 
 
 def dec_data(p):
-    return tuple(dec_data(x) for x in p) if isinstance(p, list) else p
+    if isinstance(p, list):
+        return tuple(dec_data(x) for x in p)
+    if isinstance(p, dict):
+        return dec(p["ctx"])
+    return p
+
+
+def data_to_model(p, names):
+    if isinstance(p, list):
+        return [data_to_model(x, names) for x in p]
+    if isinstance(p, dict):
+        return {"ctx": to_model(p["ctx"], names)}
+    return p
+
+
+def data_from_model(m, names):
+    if isinstance(m, list):
+        return [data_from_model(x, names) for x in m]
+    if isinstance(m, dict):
+        return {"ctx": from_model(m["ctx"], names)}
+    return m
+
+
+def _data_strings(p, acc):
+    if isinstance(p, list):
+        for x in p:
+            _data_strings(x, acc)
+    elif isinstance(p, dict) and "ctx" in p:
+        _strings(p["ctx"], acc)
+
+
+def py_split(v):
+    """Python reference of get_data_context on a case value: (data, context or None).  {"d":d,"c":c} is the tuple
+    (d, c); {"d":d} is the raw value d, which is itself a (data, context) pair if it is a 2-tuple whose second element
+    is a dictionary"""
+    if v.get("c") is not None:
+        return v["d"], v["c"]
+    d = v["d"]
+    if isinstance(d, list) and len(d) == 2 and isinstance(d[1], dict) and "ctx" in d[1]:
+        return d[0], d[1]["ctx"]
+    return d, None
+
+
+def norm(v):
+    d, c = py_split(v)
+    return {"d": d, "c": c}
 
 
 def _strings(p, acc):
@@ -180,7 +240,7 @@ def _strings(p, acc):
             for k, v in p["d"].items():
                 acc.add(k)
                 _strings(v, acc)
-        else:
+        elif "o" not in p:
             for x in p.get("l", p.get("t", [])):
                 _strings(x, acc)
 
@@ -200,7 +260,9 @@ def _expr_strings(e, acc):
 
 
 def alphabet(case):
-    acc = set(RESERVED)
+    acc = set(RESERVED) | {"w"}        # "w": the key of the dictionary the getter fixture `pairw` returns
+    for v in case.get("vals", []) + ([case["val"]] if "val" in case else []):
+        _data_strings(v["d"], acc)
     if case.get("kind") == "tok":
         for e in _tok_exprs(case):
             _expr_strings(e, acc)
@@ -218,8 +280,10 @@ def alphabet(case):
                     acc.add(o[k])
             if "v" in o:
                 _strings(o["v"], acc)
-            if "call" in o and o["call"].get("c") is not None:
-                _strings(o["call"]["c"], acc)
+            if "call" in o:
+                _data_strings(o["call"]["d"], acc)
+                if o["call"].get("c") is not None:
+                    _strings(o["call"]["c"], acc)
         return sorted(acc)
     for e in case["chain"]:
         _expr_strings(e, acc)
@@ -233,6 +297,8 @@ def to_model(p, names):
     """encoded value -> model JSON (dictionaries as slot arrays over names)"""
     if isinstance(p, (int, str)):
         return p
+    if "o" in p:
+        return OPAQUE[p["o"]]
     if "l" in p:
         return {"l": [to_model(x, names) for x in p["l"]]}
     if "t" in p:
@@ -242,6 +308,8 @@ def to_model(p, names):
 
 
 def from_model(m, names):
+    if isinstance(m, int) and m in _OPAQUE_REV:
+        return {"o": _OPAQUE_REV[m]}
     if isinstance(m, (int, str)):
         return m
     if isinstance(m, dict):
@@ -258,7 +326,10 @@ def expr_to_model(e, names):
         return {"k": "other"}
     kw = to_model({"d": e["kw"]}, names)
     if e["k"] == "var":
-        return {"k": "var", "name": to_model(e["name"], names), "getter": e["getter"], "type": to_model(e["type"], names),
+        g = e["getter"]
+        if isinstance(g, dict) and "pairw" in g:
+            g = {"pairw": g["pairw"], "k": names.index("w"), "n": len(names)}
+        return {"k": "var", "name": to_model(e["name"], names), "getter": g, "type": to_model(e["type"], names),
                 "kw": kw}
     return {"k": e["k"], "args": [expr_to_model(a, names) for a in e["args"]], "kw": kw}
 
@@ -274,12 +345,15 @@ class _NotAVariable:
         return x
 
 
-def build(e):
-    """construct the real object of an expression (may raise)"""
+def build(e, env=None):
+    """construct the real object of an expression (may raise); expressions that carry the same "id" are ONE object
+    (`env` maps ids to the objects built so far): Sequence(v, v), Compose(v, w, v), Sequence(v, Compose(v, w))"""
     from lena.variables import Variable, Compose, Combine
     k = e["k"]
     if k == "other":
         return _NotAVariable()
+    if env is not None and e.get("id") is not None and e["id"] in env:
+        return env[e["id"]]
     kw = {key: dec(v) for key, v in e["kw"].items()}
     if k == "var":
         g = e["getter"]
@@ -288,14 +362,33 @@ def build(e):
         elif g == "notcallable":
             getter = 5
         else:
-            getter = (lambda x, i=g["tag"]: (i, x))
-        return Variable(dec(e["name"]), getter, type=dec(e["type"]), **kw)
-    args = [build(a) for a in e["args"]]
-    return (Compose if k == "compose" else Combine)(*args, **kw)
+            getter = _getter(g)
+        obj = Variable(dec(e["name"]), getter, type=dec(e["type"]), **kw)
+    else:
+        args = [build(a, env) for a in e["args"]]
+        obj = (Compose if k == "compose" else Combine)(*args, **kw)
+    if env is not None and e.get("id") is not None:
+        env[e["id"]] = obj
+    return obj
+
+
+def _getter(g):
+    """the getter fixtures: {"tag":i}: x -> (i, x); {"pairw":i}: x -> (x, {"w": i}) (data that looks like a
+    (data, context) pair); "first": x -> x[0] for a non-empty tuple, else x"""
+    if g == "first":
+        return lambda x: x[0] if isinstance(x, tuple) and x else x
+    if "pairw" in g:
+        return lambda x, i=g["pairw"]: (x, {"w": i})
+    return (lambda x, i=g["tag"]: (i, x))
+
+
+def _has_ctx(x):
+    """Python reference of lena.flow._has_context"""
+    return isinstance(x, tuple) and len(x) == 2 and isinstance(x[1], dict)
 
 
 def _mkval(v):
-    return v["d"] if v.get("c") is None else (v["d"], dec(v["c"]))
+    return dec_data(v["d"]) if v.get("c") is None else (dec_data(v["d"]), dec(v["c"]))
 
 
 _SIZE_LIMIT = 20000
@@ -337,7 +430,7 @@ def _apply(fn, vals, watch):
                 o = {"d": enc_data(r[0]), "c": enc(r[1])} if (isinstance(r, tuple) and len(r) == 2) else {"bad": enc(r)}
             except Exception as e:
                 o = {"e": exc_name(e)}
-            if isinstance(x, tuple):
+            if _has_ctx(x):
                 o["in_after"] = enc(x[1])
             reps.append(o)
             # a variable that keeps state between calls can grow exponentially: stop at the first sign
@@ -361,7 +454,8 @@ def _chain_run_impl(case):
     res = {"fx": detect_fx(), "nk": detect_nk()}
     # the variables in a Sequence
     try:
-        vars_ = [build(e) for e in case["chain"]]
+        env = {}
+        vars_ = [build(e, env) for e in case["chain"]]
     except Exception as e:
         res["S"] = {"e": exc_name(e), "phase": "init"}
         vars_ = None
@@ -379,7 +473,8 @@ def _chain_run_impl(case):
     cargs, args_before, args_init = None, None, None
     try:
         from lena.variables import Compose
-        cargs = [build(e) for e in case["chain"]]
+        env = {}
+        cargs = [build(e, env) for e in case["chain"]]
         args_before = [enc(a.var_context) for a in cargs]
         comp = Compose(*cargs)
         args_init = [enc(a.var_context) for a in cargs]
@@ -438,7 +533,8 @@ def detect_nk():
 
 def _chain_model_requests(case):
     names = alphabet(case)
-    vals = [{"d": v["d"], "c": None if v.get("c") is None else to_model(v["c"], names)} for v in case["vals"]]
+    vals = [{"d": data_to_model(v["d"], names), "c": None if v.get("c") is None else to_model(v["c"], names)}
+            for v in case["vals"]]
     chain = [expr_to_model(e, names) for e in case["chain"]]
     fx = detect_fx()
     return [
@@ -451,7 +547,7 @@ def _chain_model_requests(case):
 def _model_out(m, names):
     if "e" in m:
         return {"e": m["e"]}
-    return {"d": m["d"], "c": from_model(m["c"], names)}
+    return {"d": data_from_model(m["d"], names), "c": from_model(m["c"], names)}
 
 
 def _strip(o):
@@ -497,7 +593,7 @@ def ref_types(e):
 def _spec_side(case, r, m, names):
     """The specification-side Lean definitions (hypotheses as Boolean checks, `composeData`, `chainData`, `argsTypes`,
     the fold of `UP` of `seqCall_result`, `Leaf.ctx`) against the real code / independent Python references."""
-    chain, vals = case["chain"], case["vals"]
+    chain, vals = case["chain"], [norm(v) for v in case["vals"]]
     wf = spec_wf(case)
     if wf and not (m.get("namesok") and all(m.get("wf", [False])) and all(m.get("cok", [False]))):
         return (f"the case is well-formed by the harness's rule (spec_wf) but outside the hypotheses of the Lean theorems: "
@@ -510,13 +606,14 @@ def _spec_side(case, r, m, names):
         all(x["k"] != "other" for e in chain for x in _all_exprs(e))
     for i, (v, reps) in enumerate(zip(vals, r["outs"])):
         o = reps[0]
+        sdata, cdata = data_from_model(m["sdata"][i], names), data_from_model(m["cdata"][i], names)
         if plain:
-            x = v["d"]
+            x = dec_data(v["d"])
             for e in chain:
                 x = ref_data(e, x)
-            if m["sdata"][i] != enc_data(x):
-                return f"Lean composeData {m['sdata'][i]} differs from the Python reference {enc_data(x)} on {v}"
-        if "d" in o and (m["cdata"][i] != o["d"] or (plain and m["sdata"][i] != o["d"])):
+            if sdata != enc_data(x):
+                return f"Lean composeData {sdata} differs from the Python reference {enc_data(x)} on {v}"
+        if "d" in o and (cdata != o["d"] or (plain and sdata != o["d"])):
             return f"value {v}: impl data {o['d']} vs Lean chainData {m['cdata'][i]} / composeData {m['sdata'][i]}"
         if m["sup"][i] is not None and "c" in o:
             sup = from_model(m["sup"][i], names)
@@ -539,9 +636,10 @@ def _spec_side(case, r, m, names):
 
 
 def ref_data(e, x):
-    """vn.getter(...v1.getter(x)...) / the tuple of the getters' results, from the specification alone"""
+    """vn.getter(...v1.getter(x)...) / the tuple of the getters' results, from the specification alone (on real Python
+    data)"""
     if e["k"] == "var":
-        return (e["getter"]["tag"], x)
+        return _getter(e["getter"])(x)
     if e["k"] == "compose":
         for a in e["args"]:
             x = ref_data(a, x)
@@ -600,7 +698,7 @@ def _spec(case):
                 return False, False
             kw = dict(e["kw"])
             if e["k"] == "var":
-                if not isinstance(e["getter"], dict) or not isinstance(e["name"], str):
+                if e["getter"] in ("variable", "notcallable") or not isinstance(e["name"], str):
                     return False, False
                 if e["type"] != "":
                     if not _is_type(e["type"]):
@@ -621,7 +719,7 @@ def _spec(case):
                 return False, False
             attrs |= set(kw)
     for v in case["vals"]:
-        c = v.get("c")
+        c = norm(v)["c"]
         if c is None:
             continue
         if "d" not in c:
@@ -686,7 +784,7 @@ def _chain_oracle(case, res):
     wf = spec_wf(case)            # inside the hypotheses of the theorems
     scope = spec_scope(case)      # inside the property's quantifier (attributes may be named like types)
     S, C = res["S"], res["C"]
-    chain, vals = case["chain"], case["vals"]
+    chain, vals = case["chain"], [norm(v) for v in case["vals"]]     # data / context by the Python reference of _has_context
     if scope:
         for which, r in (("Sequence", S), ("Compose", C)):
             if "e" in r:
@@ -714,7 +812,7 @@ def _chain_oracle(case, res):
                     return f"{which} applied to {v} gives {o}"
                 continue
             # same data as vn.getter(...v1.getter(x)...)
-            x = v["d"]
+            x = dec_data(v["d"])
             for e in chain:
                 x = ref_data(e, x)
             if o["d"] != enc_data(x):
@@ -806,7 +904,7 @@ def _chain_oracle(case, res):
 # ---------------------------------------------------------------------------------------------
 # generation
 
-ATTR = ["a", "b", "u"]
+ATTR = ["a", "b", "u", "latex_name", "unit", "range", "x_1", "Q2"]     # incl. the documented attribute names
 TYPES = ["ta", "tb", "tc", "td", "te", "tf", "tg"]
 PRETYPES = ["p0", "p1", "p2"]
 
@@ -838,9 +936,12 @@ def _pre_vals(shared="ta"):
 
 def _rand_value(rng, depth=0, keys=ATTR):
     r = rng.random()
-    if r < 0.35:
+    if r < 0.3:
         return rng.randint(0, 3)
-    if r < 0.55:
+    if r < 0.42:
+        # None, booleans, floats (also nan/inf), kept apart from ints
+        return {"o": rng.choice(list(OPAQUE))}
+    if r < 0.58:
         return rng.choice(["", "s", "mm", "e^+"])
     if r < 0.7:
         return {"l": [_rand_value(rng, depth + 1, keys) for _ in range(rng.randint(0, 2))]}
@@ -849,6 +950,27 @@ def _rand_value(rng, depth=0, keys=ATTR):
     if depth < 2:
         return {"d": {rng.choice(keys): _rand_value(rng, depth + 1, keys) for _ in range(rng.randint(0, 2))}}
     return 1
+
+
+def _rand_getter(rng, i):
+    r = rng.random()
+    if r < 0.78:
+        return {"tag": i}
+    if r < 0.92:
+        return {"pairw": i}        # returns data that looks like a (data, context) pair
+    return "first"
+
+
+def _rand_data(rng):
+    """input data: mostly an int; sometimes a tuple, sometimes a tuple that looks like a (data, context) pair"""
+    r = rng.random()
+    if r < 0.7:
+        return rng.randint(0, 9)
+    if r < 0.8:
+        return [rng.randint(0, 9), rng.randint(0, 9)]
+    if r < 0.9:
+        return [rng.randint(0, 9), {"ctx": {"d": {"w": rng.randint(0, 3)}}}]
+    return [[rng.randint(0, 9), {"ctx": {"d": {}}}], rng.randint(0, 3)]
 
 
 def _rand_kw(rng, keys=ATTR, pmax=2):
@@ -868,7 +990,7 @@ class _Gen:
         if rng.random() < 0.05:
             # "arbitrary extra attributes": one that happens to be called like a type (notes/C14_defect_3.md)
             kw[rng.choice(TYPES[:3] + PRETYPES)] = _rand_value(rng)
-        return _leaf(self.n, ty, kw)
+        return dict(_leaf(self.n, ty, kw), getter=_rand_getter(rng, self.n))
 
     def expr(self, types, depth=0):
         rng = self.rng
@@ -890,10 +1012,10 @@ class _Gen:
         rng = self.rng
         r = rng.random()
         if r < 0.2:
-            return {"d": rng.randint(0, 9), "c": None}
+            return {"d": _rand_data(rng), "c": None}
         ctx = {k: _rand_value(rng) for k in rng.sample(["x", "y", "a"], rng.randint(0, 2))}
         if r < 0.35:
-            return {"d": rng.randint(0, 9), "c": {"d": ctx}}
+            return {"d": _rand_data(rng), "c": {"d": ctx}}
         hist = rng.sample(PRETYPES + TYPES[:2], rng.randint(0, 3))
         var = {"name": rng.choice(["z", "w"])}
         var.update(_rand_kw(rng, pmax=1))
@@ -907,7 +1029,7 @@ class _Gen:
             if len(hist) > 1 or not typed or rng.random() < 0.3:
                 var["compose"] = {"l": list(hist)}
         ctx["variable"] = {"d": var}
-        return {"d": rng.randint(0, 9), "c": {"d": ctx}}
+        return {"d": _rand_data(rng), "c": {"d": ctx}}
 
 
 WILD_KEYS = ["a", "b", "ta", "tb", "compose", "name", "type", "u", "dim", "getter", "combine", "variable"]
@@ -995,6 +1117,23 @@ def _exhaustive_cases(maxlen):
                 if n <= 3:
                     cases.append({"chain": [_leaf(1, "te"), comb, _leaf(2, "tf", {"a": 1})], "vals": vals2})
                     cases.append({"chain": [comb, {"k": "compose", "args": [_leaf(3, "te"), comb], "kw": {}}], "vals": vals2})
+    # data that looks like a (data, context) pair: getters that return (x, {"w": i}) / take x[0], inputs that are pairs
+    pw = lambda i, ty="": dict(_leaf(i, ty), getter={"pairw": i})
+    first = lambda i, ty="": dict(_leaf(i, ty), getter="first")
+    pvals = [{"d": 7, "c": None}, {"d": [7, {"ctx": {"d": {"w": 2}}}], "c": None}, {"d": [3, 4], "c": None},
+             {"d": [7, {"ctx": {"d": {}}}], "c": {"d": {"x": 1}}}, vals[3]]
+    for chain in ([pw(1), _leaf(2, "ta")], [pw(1, "ta"), first(2, "tb")], [pw(1), pw(2), _leaf(3, "")],
+                  [_leaf(1, "ta"), pw(2), first(3), first(4)],
+                  [{"k": "combine", "args": [pw(1), _leaf(2, "tb")], "kw": {}}, first(3, "tc")],
+                  [pw(1), {"k": "compose", "args": [_leaf(2, "ta"), pw(3)], "kw": {}}, _leaf(4, "tb")]):
+        cases.append({"chain": chain, "vals": pvals})
+    # one Variable object used twice: Sequence(v, v), Compose(v, w, v), Sequence(v, Compose(v, w)), Combine(v, v)
+    for ty in ("", "ta"):
+        v = dict(_leaf(1, ty, {"a": {"l": [1]}}), id="v")
+        w = _leaf(2, "tb")
+        for chain in ([v, v], [v, w, v], [v, {"k": "compose", "args": [v, w], "kw": {}}],
+                      [{"k": "combine", "args": [v, v], "kw": {}}, v]):
+            cases.append({"chain": chain, "vals": vals2})
     # an attribute named like a type the value carries (notes/C14_defect_3.md; Lean `compose_ne_sequence_attr_clash`)
     clash_val = {"d": 1, "c": {"d": {"variable": {"d": {"name": "z", "type": "p0", "p0": _sub("z")}}}}}
     cases.append({"chain": [_leaf(1, "ta", {"p0": 3}), _leaf(2, "tb")], "vals": [clash_val]})
@@ -1005,6 +1144,21 @@ def _exhaustive_cases(maxlen):
             cases.append({"chain": [{"k": "compose", "args": args, "kw": kw}], "vals": vals2, "wild": True})
             cases.append({"chain": [_leaf(0, "te"), {"k": "compose", "args": args, "kw": kw}], "vals": vals2, "wild": True})
     return cases
+
+
+def _share(rng, chain):
+    """re-use of one Variable object: a leaf of the chain occurs a second time (same "id" = same object), at top level
+    or inside a later Compose/Combine"""
+    leaves = [e for e in chain if e["k"] == "var"]
+    if not leaves:
+        return
+    v = rng.choice(leaves)
+    v["id"] = "shared"
+    later = [e for e in chain[chain.index(v) + 1:] if e["k"] in ("compose", "combine")]
+    if later and rng.random() < 0.5:
+        rng.choice(later)["args"].insert(rng.randint(0, 1), v)
+    else:
+        chain.insert(rng.randint(chain.index(v) + 1, len(chain)), v)
 
 
 def gen_cases(ctx):
@@ -1028,6 +1182,8 @@ def gen_cases(ctx):
             types = TYPES if rng.random() < 0.7 else TYPES[:2]
             g.n = 0
             chain = [g.expr(types) for _ in range(n)]
+            if rng.random() < 0.12:
+                _share(rng, chain)
             yield {"chain": chain, "vals": [g.pre_value() for _ in range(2)]}
         elif r < n_chain + n_wild:
             yield _wild_case(rng)
@@ -1073,7 +1229,9 @@ def _chain_classify(case, res):
             for reps in r["outs"]:
                 labels.append(f"{which}:call:" + (reps[0]["e"] if "e" in reps[0] else "ok"))
     for v in case["vals"]:
-        c = v.get("c")
+        c = norm(v)["c"]
+        if v.get("c") is None and c is not None:
+            labels.append("val:raw-pair")
         if c is None:
             labels.append("val:bare")
         elif "variable" not in c["d"]:
@@ -1088,12 +1246,16 @@ def _chain_classify(case, res):
 
 
 KNOWN_CLASH_SIGNATURE = "attribute named like a type: Compose and Sequence differ"
+# the failures an attribute named like a type causes on the code as it is (known finding, notes/C14_defect_3.md): the two
+# paths differ, and the sub-context stored under the clashing type name is lost; every other failure of such a case
+# (data, frame, changed var_context, exceptions, ...) is reported as usual
+_CLASH_FAILURES = ("Compose and Sequence of the same", "sub-context of the earlier type", "attributes of the variable of type")
 
 
 def signature(case, failure):
     """one report per kind of failure (the text before the first colon, without the variant's name); every failure of a
     case in which an attribute is named like a type is the finding of notes/C14_defect_3.md"""
-    if _kind(case) == "chain" and _spec(case)[1]:
+    if _kind(case) == "chain" and _spec(case)[1] and any(w in (failure or "") for w in _CLASH_FAILURES):
         return KNOWN_CLASH_SIGNATURE
     if _kind(case) == "tok":
         return "tok|" + (failure or "").split(":", 1)[-1].strip()[:60].split("tokens")[0]
@@ -1192,7 +1354,8 @@ def _attr_model_requests(case):
             ops.append({"set": o["set"], "v": to_model(o["v"], names)})
         elif "call" in o:
             c = o["call"]
-            ops.append({"call": {"d": c["d"], "c": None if c.get("c") is None else to_model(c["c"], names)}})
+            ops.append({"call": {"d": data_to_model(c["d"], names),
+                                 "c": None if c.get("c") is None else to_model(c["c"], names)}})
         else:
             ops.append(o)
     return [{"op": "attr", "names": names, "fx": detect_fx(), "nk": detect_nk(), "expr": expr_to_model(case["expr"], names),
@@ -1215,6 +1378,8 @@ def _attr_compare(case, res, replies):
         for k in ("vc", "c"):
             if k in b:
                 b[k] = from_model(b[k], names)
+        if "d" in b:
+            b["d"] = data_from_model(b["d"], names)
         if "r" in b and not ("item" in case["ops"][i]) and b["r"] is not None:
             b["r"] = from_model(b["r"], names)
         if a != b:
@@ -1342,10 +1507,8 @@ def _is_mut(o):
 
 def _tv(o, ids, alive):
     """encode with tokens; objects not seen before get the next token"""
-    if isinstance(o, bool):
-        return {"obj": "bool"}
-    if isinstance(o, (int, str)):
-        return o
+    if o is None or isinstance(o, (bool, float, int, str)):
+        return enc(o)
     if isinstance(o, tuple):
         return {"t": [_tv(x, ids, alive) for x in o]}
     if _is_mut(o):
@@ -1399,17 +1562,17 @@ def _tok_run_impl(case):
     for v in vs:
         _reach(v.var_context, var_objs)
     x = _mkval(case["val"])
-    if case.get("alias") and isinstance(x, tuple):
+    if case.get("alias") and _has_ctx(x):
         ck, vi, vk = case["alias"]
         if vk in vs[vi].var_context:
             x[1][ck] = vs[vi].var_context[vk]
-    if isinstance(x, tuple):
+    if _has_ctx(x):
         _tv(x[1], ids, alive)
     res["next"] = len(ids)
     steps = []
     for v in vs * case["reps"]:
         before = {id(o): _shallow(o) for o in alive}
-        ctx_in = x[1] if isinstance(x, tuple) else None
+        ctx_in = x[1] if _has_ctx(x) else None
         frame_in = {k: (id(w) if _is_mut(w) else None, copy.deepcopy(w)) for k, w in (ctx_in or {}).items() if k != "variable"}
         known = len(ids)
         ctoks = sorted(ids[i] for i in _reach(ctx_in, set())) if ctx_in is not None else []
@@ -1424,12 +1587,12 @@ def _tok_run_impl(case):
         st["var_changed"] = sorted(ids[i] for i in var_objs if ids[i] in changed)
         st["shared"] = sorted(ids[i] for i in _reach(out[1], set()) if i in var_objs)
         st["same_ctx"] = ctx_in is None or out[1] is ctx_in
-        st["frame"] = [k for k, (i, w) in frame_in.items() if k not in out[1] or out[1][k] != w] + \
+        st["frame"] = [k for k, (i, w) in frame_in.items() if k not in out[1] or enc(out[1][k]) != enc(w)] + \
                       [k for k in out[1] if k != "variable" and k not in frame_in]
         st["frame_id"] = [k for k, (i, w) in frame_in.items()
                           if k in out[1] and i is not None and id(out[1][k]) != i]
         if ctx_in is not None:
-            st["in_frame"] = [k for k, (i, w) in frame_in.items() if k not in ctx_in or ctx_in[k] != w] + \
+            st["in_frame"] = [k for k, (i, w) in frame_in.items() if k not in ctx_in or enc(ctx_in[k]) != enc(w)] + \
                              [k for k in ctx_in if k != "variable" and k not in frame_in]
         steps.append(st)
         x = out
@@ -1442,7 +1605,8 @@ def _tok_model_requests(case):
     v = case["val"]
     req = {"op": "tok", "names": names, "fx": detect_fx(), "nk": detect_nk(),
            "exprs": [expr_to_model(e, names) for e in _tok_exprs(case)],
-           "val": {"d": v["d"], "c": None if v.get("c") is None else to_model(v["c"], names)}, "reps": case["reps"]}
+           "val": {"d": data_to_model(v["d"], names), "c": None if v.get("c") is None else to_model(v["c"], names)},
+           "reps": case["reps"]}
     if case.get("alias"):
         req["alias"] = case["alias"]
     return [req]
@@ -1450,6 +1614,8 @@ def _tok_model_requests(case):
 
 def _tv_from_model(m, names, ren):
     """model TV -> the harness encoding; tokens renamed by `ren` (a token seen for the first time gets the next number)"""
+    if isinstance(m, int) and m in _OPAQUE_REV:
+        return {"o": _OPAQUE_REV[m]}
     if isinstance(m, (int, str)):
         return m
     if "t" in m:
@@ -1498,7 +1664,7 @@ def _tok_compare(case, res, replies):
             nexts.append(b["e"])
             continue
         nexts.append(b["next"])
-        if bool(b["sep"]) == bool(case.get("alias") and i == 0 and a["ctoks"] and set(a["ctoks"]) & _vc_tokens(res)):
+        if bool(b["sep"]) == bool(case.get("alias") and set(a["ctoks"]) & _vc_tokens(res)):
             return (f"step {i}: the hypothesis sepB of the token theorems is {b['sep']}; expected "
                     f"{'false (aliasing case)' if b['sep'] else 'true'}")
         if from_model(b["erased"], names) != a["erased"]:
